@@ -130,7 +130,18 @@ def fuzz_block(case):
     """a printing statement with an arbitrary (writable) want; whether it fails is decided by running it"""
     f = case['fuzz']
     want = [ln for ln in f['want']]
-    return [">>> print({!r})".format(f['got'])] + want, 1, ['GotWantException']
+    stmt = f.get('stmt', 'print')
+    if stmt == 'print':
+        return [">>> print({!r})".format(f['got'])] + want, 1, None
+    if stmt == 'value':
+        # an object whose repr is the fuzzed text
+        return ['>>> class R:', '...     def __init__(self, t):', '...         self.t = t', '...     def __repr__(self):',
+                '...         return self.t', '>>> R({!r})'.format(f['got'])] + want, None, None
+    if stmt == 'raise':
+        return ['>>> raise ValueError({!r})'.format(f['got'])] + want, None, None
+    if stmt == 'raise_tb':
+        return ['>>> raise ValueError({!r})'.format(f['got']), 'Traceback (most recent call last):'] + want, None, None
+    raise KeyError(stmt)
 
 
 def build_bad(case):
@@ -205,7 +216,7 @@ def check_case(case, ctx):
     kind = case['kind']
     verbose = case.get('verbose', 0)
     runner = case.get('runner', 'run')
-    classes = ['GotWantException'] if kind == 'want_fuzz' else KINDS[kind][2]
+    classes = None if kind == 'want_fuzz' else KINDS[kind][2]
     ref_check(lines, case, fail_line)
     name = sandbox.unique_name('vpc09')
     with sandbox.scratch('c09') as d:
@@ -403,7 +414,7 @@ def fuzz_strategy(D):
         if not ln.strip() or ln.lstrip().startswith(('>>>', '...')):
             ln = 'w' + ln          # a want line is never blank and never looks like source
         want.append(ln)
-    return {'kind': 'want_fuzz', 'fuzz': {'got': got, 'want': want}, 'pre': [D.choice(sorted(PRE)) for _ in range(D.int(0, 2))],
+    return {'kind': 'want_fuzz', 'fuzz': {'got': got, 'want': want, 'stmt': D.choice(['print', 'print', 'value', 'raise', 'raise_tb'])}, 'pre': [D.choice(sorted(PRE)) for _ in range(D.int(0, 2))],
             'post': [], 'verbose': D.choice([0, 1, 2, 3]), 'runner': 'run'}
 
 
